@@ -76,7 +76,7 @@ func hashSum(x *Exec, s *State, e *ast.CallExpr, c callee) (Val, bool) {
 		return Val{}, false
 	}
 	h := x.eval(s, c.recvX)
-	b := x.eval(s, e.Args[0])
+	b := x.convertTo(s, x.eval(s, e.Args[0]), x.typeOf(e), e.Pos())
 	if h.K != KIface || b.K != KSlice {
 		return Val{}, false
 	}
